@@ -147,7 +147,7 @@ impl<IO> Connection<IO> {
 
             // Try to parse response data from the initialized section of the buffer, removing the
             // consumed parts from the buffer
-            let maybe_parsed = response_builder.parse(&mut self.recv_buf)?;
+            let parse_result = response_builder.parse(&mut self.recv_buf);
 
             // Update the length of the initialized section to the remaining length
             self.total_received = self.recv_buf.len();
@@ -155,6 +155,10 @@ impl<IO> Connection<IO> {
             // Join back the remaining data with the main buffer, and readjust the length
             self.recv_buf.unsplit(remaining);
             self.recv_buf.resize(buf_size, 0);
+
+            // Propagate a parse error only after the buffer has been restored, otherwise the next
+            // call would split the truncated buffer at a stale position and panic
+            let maybe_parsed = parse_result?;
 
             if let Some(response) = maybe_parsed {
                 debug!(
